@@ -105,6 +105,8 @@ type c05BlockCase struct {
 	Y    string `json:"y"`
 }
 
+var c05WholeToken = regexp.MustCompile(`(?s)\{\{.*?\}\}|\{%.*?%\}`)
+
 var c05Block = hx.Define("c05.raw-comment", func(c *c05BlockCase, s *hx.Sub) *hx.Violation {
 	if c.Kind == "both" {
 		// a raw block and then a comment block with the same body in one template
@@ -123,11 +125,23 @@ var c05Block = hx.Define("c05.raw-comment", func(c *c05BlockCase, s *hx.Sub) *hx
 		s.NTKey(src)
 		return nil
 	}
+	endArgs := ""
+	if strings.HasSuffix(c.Kind, "-args") {
+		// the end tag carries an argument (end tags ignore their arguments); the body holds whole objects and tags only,
+		// and neither it nor the rest of the source names the end tag again
+		c = &c05BlockCase{Kind: strings.TrimSuffix(c.Kind, "-args"), X: c.X, B: c.B, Y: c.Y}
+		endArgs = " x"
+		rest := c05WholeToken.ReplaceAllString(c.B, "")
+		if strings.Contains(rest, "{{") || strings.Contains(rest, "{%") || strings.Contains(rest, "}}") || strings.Contains(rest, "%}") || strings.Contains(c.B+c.Y, "end"+c.Kind) || strings.ContainsAny(c.Y, "{}%") {
+			s.Exclude()
+			return nil
+		}
+	}
 	if !selfContained(c.B, "end"+c.Kind) || strings.Contains(c.X, "{") || strings.Contains(c.Y, "{{") || strings.Contains(c.Y, "{%") {
 		s.Exclude()
 		return nil
 	}
-	src := c.X + "{% " + c.Kind + " %}" + c.B + "{% end" + c.Kind + " %}" + c.Y
+	src := c.X + "{% " + c.Kind + " %}" + c.B + "{% end" + c.Kind + endArgs + " %}" + c.Y
 	o := hx.Render(src, map[string]any{"n": 1})
 	if o.Panic != nil {
 		return hx.V("panic@"+o.Panic.Site, "%q: %v", src, o.Panic)
@@ -343,7 +357,7 @@ func TestC05(t *testing.T) {
 	bodies = func(cur []byte, n int) {
 		idx++
 		if env.Mine(idx) {
-			for _, kind := range []string{"raw", "comment", "both"} {
+			for _, kind := range []string{"raw", "comment", "both", "raw-args", "comment-args"} {
 				blk.Run(&c05BlockCase{Kind: kind, X: xs[idx%len(xs)], B: string(cur), Y: xs[(idx/4)%len(xs)]})
 			}
 		}
@@ -357,7 +371,7 @@ func TestC05(t *testing.T) {
 	bodies(nil, env.Pick(4, 5))
 	bodyFrag := []string{"{{ n }}", "{{ n | no_such_filter }}", "{{ 1 | divided_by: 0 }}", "{% if %}", "{% nosuchtag %}", "{% for %}", "{% endif %}", "{% else %}", "{{ a b c }}", "{% assign x = %}", "text", " ", "\n", "é", "{%- x -%}", "{{- n -}}", "{% if true %}", "{% raw %}", "{% comment %}", "{{ 'a' }}", "}}", "%}", "-"}
 	col.Rapid(blk.Sub, env.PerShard(env.Pick(60000, 800000)), func(t *rapid.T) {
-		c := &c05BlockCase{Kind: rapid.SampledFrom([]string{"raw", "comment", "both"}).Draw(t, "kind"),
+		c := &c05BlockCase{Kind: rapid.SampledFrom([]string{"raw", "comment", "both", "raw-args", "comment-args"}).Draw(t, "kind"),
 			X: rapid.SampledFrom([]string{"", "x", "line\n", " ", "}} %}"}).Draw(t, "x"),
 			B: strings.Join(rapid.SliceOfN(rapid.SampledFrom(bodyFrag), 0, 8).Draw(t, "b"), ""),
 			Y: rapid.SampledFrom([]string{"", "y", "\n", " }} ", "%}"}).Draw(t, "y")}
